@@ -305,11 +305,16 @@ where
             let l = sum.clone() / T::from_f64(2.0);
             if max.neq(&min).is_true() {
                 let d = max - min;
-                s = if sum.gt(&T::one()).is_true() {
-                    d.clone() / (T::from_f64(2.0) - sum)
+                let denominator = if sum.gt(&T::one()).is_true() {
+                    T::from_f64(2.0) - sum
                 } else {
-                    d.clone() / sum
+                    sum
                 };
+                // The sum may be rounded to exactly 2, for colors very close
+                // to white, even if the components differ.
+                if denominator.neq(&T::zero()).is_true() {
+                    s = d.clone() / denominator;
+                }
                 h = ((sep / d) + coeff) * T::from_f64(60.0);
             };
 
@@ -336,10 +341,12 @@ where
             let lightness = T::from_f64(0.5) * &sum;
 
             let chroma = max.clone() - &min;
+            // The sum may be rounded to exactly 2, for colors very close to
+            // white, even if the components differ.
+            let denominator = sum.gt(&T::one()).select(T::from_f64(2.0) - &sum, sum.clone());
             let saturation = lazy_select! {
-                if min.eq(&max) => T::zero(),
-                else => chroma.clone() /
-                    sum.gt(&T::one()).select(T::from_f64(2.0) - &sum, sum.clone()),
+                if min.eq(&max) | denominator.eq(&T::zero()) => T::zero(),
+                else => chroma.clone() / denominator.clone(),
             };
 
             // Each of these represents an RGB component. The maximum will be false
